@@ -1,6 +1,9 @@
 /* C11 harness: drives the event dispatcher of mptcore/event (C entry points) and
  * the wrappers of mpt++/event.cpp on one dispatch object per case.
  * Case line:  <id> <op> <args> ...          (see ml/c11_driver.ml)
+ * Beside the dispatcher (state untouched): djb/djs/djn mpt_hash_djb2, lrep the default handler of a
+ * reserved slot, rset/rzero reply_data::set, rdefer/rtraits reply_context, xcopy, unk the built-in fallback,
+ * cinit the init function of the command content traits.
  * Token per operation:
  *   <result>|<handler/reply/unref calls of this operation>|<_def>|<_err>|<_ctx>|<table>
  * The table is read back from the raw buffer memory (not through the library).
@@ -10,8 +13,12 @@
  * which -fsanitize=vptr (part of "undefined") rejects on every member call;
  * props/c11.py adds -fno-sanitize=vptr for this unit only (lib/ is not ours to change). */
 #include "event.cpp"
+/* the default constructed command::array (op xarr) detaches through mpt++/array.cpp: same reason, same flag */
+#include "array.cpp"
 #include "common.h"
 #include <new>
+#include <type_traits>
+#include <fcntl.h>
 #include <sys/uio.h>
 #include "message.h"
 #include "meta.h"
@@ -210,6 +217,39 @@ static void show_ev(int ret, event *ev)
 	else vh_tok("e%d:%lx:%s", ret, (unsigned long) ev->id, replystr(ev->reply));
 }
 
+/* ---- copy construction of the dispatcher: possible only while struct dispatch is copyable
+ * (docs/C11_dispatch_copy.diff makes it a compile time error; the harness builds either way) */
+template <typename T>
+static typename std::enable_if<std::is_copy_constructible<T>::value, int>::type try_copy(T *d)
+{
+	T *c = new T(*d);
+	delete c;   /* teardown of the copy: every call it makes is logged */
+	return 1;
+}
+template <typename T>
+static typename std::enable_if<!std::is_copy_constructible<T>::value, int>::type try_copy(T *)
+{
+	return 0;
+}
+/* library output on stdout (mpt_log of a "message" level) must not reach the token stream */
+static int out_save = -1;
+static void out_hide(void)
+{
+	int nl = open("/dev/null", O_WRONLY);
+	fflush(stdout);
+	out_save = dup(1);
+	dup2(nl, 1);
+	close(nl);
+}
+static void out_show(void)
+{
+	fflush(stdout);
+	dup2(out_save, 1);
+	close(out_save);
+}
+/* raw view of struct reply_data */
+struct rawreply { uint16_t max, len; uint8_t val[1]; };
+
 static void run_case(int ntok, char **tok)
 {
 	void *store = malloc(sizeof(D));
@@ -295,6 +335,107 @@ static void run_case(int ntok, char **tok)
 			d->~D();
 			dead = 1;
 			vh_tok("v");
+		}
+		else if (!strcmp(op, "xarr")) {
+			/* a default constructed command::array (shared empty content with command traits) is
+			 * assigned to the table; the reference to the old buffer is released, whose content traits
+			 * (command_traits.c) finalise the handlers.  Not done on a raw (reserve-made) buffer: it has
+			 * no traits, the handlers would be lost without notification. */
+			rawbuf *b = *reinterpret_cast<rawbuf **>(static_cast<dispatch *>(d));
+			if (!b || b->traits) *static_cast<command::array *>(d) = command::array();
+			vh_tok("v");
+		}
+		else if (!strcmp(op, "djb") || !strcmp(op, "djs")) {
+			size_t n;
+			uint8_t *raw = vh_unhex(tok[t++], &n), *p;
+			uintptr_t h;
+			if (op[2] == 's') {
+				p = (uint8_t *) malloc(n + 1);
+				memcpy(p, raw, n);
+				p[n] = 0;
+				h = mpt_hash_djb2(p, -1);
+			} else {
+				p = (uint8_t *) malloc(n ? n : 1);
+				memcpy(p, raw, n);
+				h = mpt_hash_djb2(p, (int) n);
+			}
+			vh_tok("x%lx", (unsigned long) h);
+		}
+		else if (!strcmp(op, "djn")) {
+			vh_tok("x%lx", (unsigned long) mpt_hash_djb2(0, atoi(tok[t++])));
+		}
+		else if (!strcmp(op, "lrep")) {
+			/* the handler mpt_command_reserve leaves in a fresh slot, called the way a connection
+			 * calls a waiter: cmd(arg, message) / cmd(arg, NULL) */
+			struct message *m = mkmsg(tok[t++]);
+			D *sc = new (malloc(sizeof(D))) D;
+			command *c = mpt_command_reserve(sc, 1);
+			int ret;
+			out_hide();
+			ret = c->cmd(c->arg, m);
+			out_show();
+			vh_tok("L%d", ret);
+		}
+		else if (!strcmp(op, "rset") || !strcmp(op, "rzero")) {
+			size_t max = strtoul(tok[t++], 0, 0), ncur, ndat = 0, i, total;
+			uint8_t *cur = vh_unhex(tok[t++], &ncur), *dat = 0;
+			rawreply *r;
+			bool ok;
+			int guard = 1;
+			if (op[1] == 's') dat = vh_unhex(tok[t++], &ndat);
+			else ndat = strtoul(tok[t++], 0, 0);
+			if (ncur > max) ncur = max;
+			total = 4 + max < sizeof(reply_data) ? sizeof(reply_data) : 4 + max;
+			r = (rawreply *) malloc(total);
+			memset(r, 0xee, total);
+			r->max = max;
+			r->len = ncur;
+			memcpy(r->val, cur, ncur);
+			ok = reinterpret_cast<reply_data *>(r)->set(ndat, dat);
+			for (i = 4 + max; i < total; i++) if (((uint8_t *) r)[i] != 0xee) guard = 0;
+			vh_tok("d%d:%u:", (int) ok, (unsigned) r->len);
+			vh_hex(r->val, max);
+			if (!guard || r->max != max) vh_add("!");
+		}
+		else if (!strcmp(op, "rdefer")) {
+			HReply *rc = new HReply(1);
+			vh_tok("b%d", rc->defer() ? 1 : 0);
+		}
+		else if (!strcmp(op, "rtraits")) {
+			const named_traits *nt = reply_context::pointer_traits();
+			vh_tok("b%d", nt && nt == mpt_interface_traits(TypeReplyPtr) && nt->type == TypeReplyPtr ? 1 : 0);
+		}
+		else if (!strcmp(op, "xcopy")) {
+			vh_tok("b%d", try_copy(d));
+		}
+		else if (!strcmp(op, "cinit")) {
+			/* content traits of command buffers: init(ptr, src) with src NULL | unused | holding a handler */
+			const struct type_traits *tr = mpt_command_traits();
+			const char *w = tok[t++];
+			rawcmd *dst = (rawcmd *) malloc(sizeof(*dst)), *src = 0;
+			size_t i, nz = 0, ne = 0;
+			int ret;
+			memset(dst, 0xee, sizeof(*dst));
+			if (w[0] != 'n') {
+				src = (rawcmd *) malloc(sizeof(*src));
+				src->id = 5;
+				src->cmd = w[0] == '1' ? (int (*)(void *, void *)) h_user : 0;
+				src->arg = w[0] == '1' ? reg : 0;
+			}
+			ret = tr->init(dst, src);
+			for (i = 0; i < sizeof(*dst); i++) {
+				if (((uint8_t *) dst)[i] == 0) ++nz;
+				if (((uint8_t *) dst)[i] == 0xee) ++ne;
+			}
+			vh_tok("t%d:%c", ret, nz == sizeof(*dst) ? 'z' : ne == sizeof(*dst) ? 'u' : '?');
+			if (tr->size != sizeof(*dst) || tr->size != sizeof(command)) vh_add("!");
+		}
+		else if (!strcmp(op, "unk")) {
+			/* the built-in fallback handler of a fresh dispatcher, called directly */
+			event *ev = mkev(tok[t++]);
+			D *sc = new (malloc(sizeof(D))) D;
+			int ret = sc->errcmd()(sc->errarg(), ev);
+			vh_tok("w%d:%lx", ret, (unsigned long) ev->id);
 		}
 		else { vh_tok("?%s", op); break; }
 		dump_state(d);
